@@ -277,8 +277,8 @@ SPECS["C08"] = {
 # ---------------------------------------------------------------------------------------------- C15
 def plan_c15(tier, seed):
     if tier == "quick":
-        return checks("main", 6, 15000) + shards("main", "strings3", 1) + shards("main", "values", 1)
-    return checks("main", 12, 200000) + shards("main", "strings4", 8) + shards("main", "values", 2) + checks("nohook", 2, 100000)
+        return checks("main", 6, 15000) + shards("main", "strings3", 1) + shards("main", "values", 1) + shards("main", "big-sorts", 4)
+    return checks("main", 12, 200000) + shards("main", "strings4", 8) + shards("main", "values", 2) + checks("nohook", 2, 100000) + shards("main", "big-sorts", 4) + shards("nohook", "big-sorts", 2)
 
 
 SPECS["C15"] = {
